@@ -30,14 +30,13 @@ func runC08(p *core.Prog, r *core.Report) {
 	c08R4(p, r)
 	c08R5(p, r)
 	c07R5(p, r, "C08.R7")
-	c08R8(p, r)
+	c08R8(p, r, "C08.R8")
 }
 
 // c08R8: an index entry is marked because the index lists it, not because it could be loaded. Before
 // the mark phase tries to load an entry it has stored the entry's digest in the mark set (a blob-typed
 // entry, or a manifest the loader refuses, is still content the index refers to).
-func c08R8(p *core.Prog, r *core.Report) {
-	const rule = "C08.R8"
+func c08R8(p *core.Prog, r *core.Report, rule string) {
 	r.Rule(rule, "listed means kept: in the mark phase every load of an index entry is dominated by the store of that entry's digest into the mark set (the mark does not depend on the load succeeding)", 1)
 	walkers, first, _ := gcMarkWalkers(p)
 	if first == nil {
